@@ -87,13 +87,14 @@ PROPS = {
         "technique": "runtime monitoring: per-resource holder counters, global held counter, per-id lifetime counters, idle-flat hang verdict (the blocking queue's semaphore is invisible to the futex interposer); TSan and ASan/LSan builds",
         "level_text": "Pools of 1..4 resources, 1..8 threads, 30..150 (quick) operations each: acquire/release, move construction (once and twice), live=empty, empty=live, live=live and self move-assignment of handles. "
                       "A resource must never have two holders, held <= size, bounded programs must terminate, after the program all `size` resources must be obtainable again, and the pool's destruction must destroy each exactly once.",
-        "level_note": "A thread holds two resources only if the pool has >= 2 and no other thread does (harness token), otherwise the program itself could deadlock.",
+        "level_note": "One third of the cases run TWO live pools of the same T (sizes 1..4 each, 1..4 threads): every resource is tagged with the pool that created it, handles are move-assigned within and across the pools (live=live, live=empty, empty=live), acquire() from a pool must only ever return that pool's own resources, and at the end each pool must hand out exactly its own `size` resources again and destroy them exactly once. A thread holds two resources only if the pool has >= 2 and no other thread does (harness token), otherwise the program itself could deadlock.",
         "design_ref": "DESIGN.md §4 C25",
         "rule": "case = (size, threads, operations per thread, dwell, perturbation); non-trivial = >= 4 acquires; distinct by full spec",
-        "required_classes": ["size=1", "size=2", "size=3", "size=4", "threads<=size", "threads>size", "all-held-reached", "move-construct", "assign-live=live", "assign-live=empty", "assign-empty=live", "self-assign"],
+        "required_classes": ["size=1", "size=2", "size=3", "size=4", "threads<=size", "threads>size", "all-held-reached", "move-construct", "assign-live=live", "assign-live=empty", "assign-empty=live", "self-assign",
+                             "two-pools", "cross-pool-move-assign", "cross:live=live", "cross:live=empty", "cross:empty=live"],
         "assumptions": [_A_HANG],
         "runs": {
-            "quick": [{"config": "plain", "shards": 16}, {"config": "tsan", "shards": 16, "args": {"n": 64, "ops": 80}}, {"config": "asan", "shards": 16, "args": {"n": 64}}],
+            "quick": [{"config": "plain", "shards": 16}, {"config": "tsan", "shards": 16, "args": {"n": 96, "ops": 80}}, {"config": "asan", "shards": 16, "args": {"n": 96}}],
             "thorough": [{"config": "plain", "shards": 16, "seeds": 2}, {"config": "tsan", "shards": 16, "args": {"n": 1200}}, {"config": "asan", "shards": 16, "args": {"n": 1200}}],
         },
     },
